@@ -57,6 +57,8 @@ pub enum Evil {
     OpenFloodNoListener { n: u16 },
     /// Valid message kinds sent with a mutated code byte.
     UnknownCode(u8),
+    /// A port requested through PortData and then again through OpenPort (or the reverse order).
+    SamePortTwoWays { port: u8, open_first: bool },
     /// Many PortData frames without any port (they cost no credit) to a receiver that does not read.
     EmptyPortDataFlood { port: u8, n: u16, last: bool },
     /// A multi-chunk PortData message that never ends (first, then non-final chunks within credit).
@@ -109,6 +111,7 @@ fn evil_strategy() -> BoxedStrategy<Evil> {
         1 => (2u8..=12).prop_map(|n| Evil::ClientFinishFlood { n }),
         2 => (50u16..=600).prop_map(|n| Evil::OpenFloodNoListener { n }),
         1 => prop_oneof![Just(0u8), 16u8..=255].prop_map(Evil::UnknownCode),
+        2 => (any::<u8>(), any::<bool>()).prop_map(|(port, open_first)| Evil::SamePortTwoWays { port, open_first }),
         2 => (any::<u8>(), 300u16..=3000, any::<bool>()).prop_map(|(port, n, last)| Evil::EmptyPortDataFlood { port, n, last }),
         2 => (any::<u8>(), 20u8..=120).prop_map(|(port, chunks)| Evil::EndlessPortData { port, chunks }),
     ]
@@ -431,6 +434,25 @@ async fn inject(conv: &mut Conv, e: &Evil, run: &tokio::task::JoinHandle<crate::
         Evil::UnknownCode(c) => {
             raw!(vec![*c, 1, 2, 3, 4, 5]);
         }
+        Evil::SamePortTwoWays { port, open_first } => {
+            if let Some(pi) = sel(*port) {
+                let p = &mut conv.ports[pi];
+                if p.avail >= 4 && !p.peer_send_finished && conv.real_cs >= 4 && conv.listener.is_some() {
+                    p.avail -= 4;
+                    let real = p.real;
+                    let q = conv.fresh_peer_port(2_000_000);
+                    let pd = RefMsg::PortData { port: real, first: true, last: true, wait: false, ports: vec![q], ids: None };
+                    let op = RefMsg::OpenPort { client_port: q, wait: false, id: None };
+                    if *open_first {
+                        raw!(op.encode());
+                        raw!(pd.encode());
+                    } else {
+                        raw!(pd.encode());
+                        raw!(op.encode());
+                    }
+                }
+            }
+        }
         Evil::EmptyPortDataFlood { port, n, last } => {
             if let Some(pi) = sel(*port) {
                 if !conv.ports[pi].peer_send_finished && conv.ports[pi].rx.is_some() {
@@ -718,7 +740,7 @@ pub async fn hostile(case: &Case) -> (Option<(String, String)>, EvilStats, u64) 
                 || case.evil.iter().any(|e| matches!(e, Evil::Raw(b) if b.first() == Some(&13)));
             let raw_state_change = case.evil.iter().any(|e| match e {
                 Evil::Raw(b) => matches!(b.first(), Some(4..=15)),
-                Evil::Truncated { .. } | Evil::EmptyPortDataFlood { .. } | Evil::EndlessPortData { .. } => true,
+                Evil::Truncated { .. } | Evil::EmptyPortDataFlood { .. } | Evil::EndlessPortData { .. } | Evil::SamePortTwoWays { .. } => true,
                 _ => false,
             });
             if conv.listener.is_some() && !peer_client_finished && !raw_state_change {
@@ -739,6 +761,27 @@ pub async fn hostile(case: &Case) -> (Option<(String, String)>, EvilStats, u64) 
         Ok(())
     }
     .await;
+    // Let local users answer / drop everything they still hold while the runtime is alive, so that
+    // panics in remoc's tasks caused by inconsistent state surface in this case.
+    if let Some(l) = conv.listener.as_mut() {
+        while let Ok(Ok(Some(req))) = sim::within(1, l.inspect()).await {
+            drop(req);
+        }
+    }
+    for p in conv.ports.iter_mut() {
+        if let Some(rx) = p.rx.as_mut() {
+            for _ in 0..64 {
+                match sim::within(1, rx.recv_any()).await {
+                    Ok(Ok(Some(_))) => {}
+                    _ => break,
+                }
+            }
+        }
+    }
+    conv.ports.clear();
+    conv.listener = None;
+    conv.client = None;
+    tokio::time::sleep(std::time::Duration::from_millis(20)).await;
     let frames = link.tap_len() as u64 / 2;
     (res.err(), st, frames)
 }
